@@ -189,6 +189,16 @@ bool runAlgo(const Req& r, Resp& R) {
                            : manif::average_frechet_right(pts, eps, mi);
     pushM(out, g.coeffs()); return true;
   }
+  if (op == "t_isApprox" && (a.size() == (size_t)(2 * DoF + 1) || a.size() == (size_t)(2 * DoF))) {
+    T ta = tang(0), tb = tang(DoF);
+    const bool res = (a.size() == (size_t)(2 * DoF + 1)) ? ta.isApprox(tb, a[2 * DoF]) : (ta == tb);
+    out.push_back(res ? 1.0 : 0.0); return true;
+  }
+  if (op == "isApprox" && (a.size() == (size_t)(2 * Rep + 1) || a.size() == (size_t)(2 * Rep))) {
+    G x = elem(0), y = elem(Rep);
+    const bool res = (a.size() == (size_t)(2 * Rep + 1)) ? x.isApprox(y, a[2 * Rep]) : (x == y);
+    out.push_back(res ? 1.0 : 0.0); return true;
+  }
   if (op == "phi" && a.size() == 1 && r.ints.size() == 1) {
     out.push_back(manif::smoothing_phi(a[0], (std::size_t)r.ints[0])); return true;
   }
